@@ -305,17 +305,17 @@ impl Check for C10 {
         "C10"
     }
     fn rule(&self) -> String {
-        "scenario i even (e3-replicas): group x shape x potential x settings, K = 2..6 (quick) / 2..12 (thorough); each replica index is run alone through the real analyse_state (single-index delivery) to obtain its score, then k = 1..K replications are run, each under a fresh seeded schedule / worker count / reduction-tree shape, and the written file is reloaded and scored. Scenario i odd (e4-cliproc): one execution of the shipped binary for a group x shape x potential x replications {1,2,5} from the swarm; labels, family, shape parameters, number of copies and the logged final score are compared with the request. All from splitmix(VERIF_SEED,'C10',i). Non-trivial: (e3) K >= 2 and some run had >= 2 active workers; (e4) any execution. Distinct: hash of outputs.".into()
+        "scenario i even (e3-replicas): group x shape x potential x settings, K = 2..8 (quick) / 2..12 (thorough); each replica index is run alone through the real analyse_state (single-index delivery) to obtain its score, then k = 1..K replications are run, each under a fresh seeded schedule / worker count / reduction-tree shape, and the written file is reloaded and scored. Scenario i odd (e4-cliproc): one execution of the shipped binary for a group x shape x potential x replications {1,2,5} from the swarm; labels, family, shape parameters, number of copies and the logged final score are compared with the request. All from splitmix(VERIF_SEED,'C10',i). Non-trivial: (e3) K >= 2 and some run had >= 2 active workers; (e4) any execution. Distinct: hash of outputs.".into()
     }
     fn runs(&self, tier: Tier) -> u64 {
         match tier {
-            Tier::Quick => 240,
+            Tier::Quick => 800,
             Tier::Thorough => 12_000,
         }
     }
     fn budget_s(&self, tier: Tier) -> f64 {
         match tier {
-            Tier::Quick => 120.0,
+            Tier::Quick => 240.0,
             Tier::Thorough => 1500.0,
         }
     }
@@ -327,7 +327,7 @@ impl Check for C10 {
             return gen_e4(rng);
         }
         let kmax = match tier {
-            Tier::Quick => 6,
+            Tier::Quick => 8,
             Tier::Thorough => 12,
         };
         let mut sc = gen_rep_scenario(rng, kmax);
